@@ -100,6 +100,8 @@ def gen(ctx, name, bounds, fix, seen):
                     "p": {"budget": p["Budget"], "dials": [o["mode"] for o in ops if o["a"] == "dial"],
                           "tid": ("" if k % 2 else "verif-c18-%d" % k),
                           "model": "fix" if fix else "coded", "stuck": seqs[q], "lateOk": p["LateOk"] == "TRUE",
+                          # every third scenario: a failing underlying Write reports "the peer closed normally" (any write error means redial)
+                          "werr": "normalClose" if k % 3 == 1 else "",
                           # redials the model does not perform: fail, or (every other Close scenario) succeed -- a transport that
                           # keeps redialling after Close then stays alive and its callers hang
                           "after": "ok" if (k // 2) % 2 == 0 and any(o["a"] == "close" for o in ops) else "fail",
